@@ -68,6 +68,8 @@ Fixpoint pick_user (creators : list bytes) (pl : rj_pl) (ms : list rj_member) : 
       end
   end.
 
+Definition is_nil {A} (l : list A) : bool := match l with [] => true | _ => false end.
+
 Definition log_info (room sender localname : bytes) : bytes :=
   entry [bs "I"; room; sender; localname].
 
@@ -89,12 +91,10 @@ Fixpoint walk_rules (sender localname : bytes) (creators : list bytes) (pl : rj_
         | QVal i =>
             if negb (ri_local_in_room i) then walk_rules sender localname creators pl rs false rlog'
             else if negb (ri_user_joined i) then walk_rules sender localname creators pl rs resident rlog'
-            else match ri_joined i with
-                 | [] => walk_rules sender localname creators pl rs resident rlog'
-                 | ms => match pick_user creators pl ms with
-                         | Some u => (Some u, resident, rlog')
-                         | None => walk_rules sender localname creators pl rs resident rlog'
-                         end
+            else if is_nil (ri_joined i) then walk_rules sender localname creators pl rs resident rlog'
+            else match pick_user creators pl (ri_joined i) with
+                 | Some u => (Some u, resident, rlog')
+                 | None => walk_rules sender localname creators pl rs resident rlog'
                  end
         end
   end.
@@ -335,6 +335,57 @@ Section SendJoin.
      run by a marker signature and in the theorems by any ideal scheme *)
   Variable sign : bytes -> bytes -> json -> json.
 
+  (* everything after the mxid_mapping step (which only pseudo-ID rooms have) *)
+  Definition send_join_checks (i : sj_input) (log0 : list bytes) : event_result :=
+    let f := sj_fields i in
+    let pseudo := bytes_eqb (sj_version i) v_pseudo_ids in
+    let log1 := log0 ++ [entry [bs "U"; sj_req_room i; ef_sender f]] in
+    match sj_sender i with
+    | SErr => efail OForbidden log1
+    | SNil => efail OForbidden log1
+    | SUser dom =>
+        if negb (bytes_eqb dom (sj_origin i)) then efail OForbidden log1
+        else
+          let to_verify := if pseudo then ef_sender f else dom in
+          if negb (bytes_eqb (ef_room_id f) (sj_req_room i)) then efail OBadJson log1
+          else if negb (bytes_eqb (ef_event_id f) (sj_req_event_id i)) then efail OBadJson log1
+          else if negb (bytes_eqb (ef_type f) m_room_member) then efail OBadJson log1
+          else match ef_membership f with
+               | None => efail OBadJson log1
+               | Some m =>
+                   if negb (bytes_eqb m s_join) then efail OBadJson log1
+                   else if negb (sj_redact_ok i) then efail OBadJson log1
+                   else
+                     (* the scripted verifier is not called for pseudo-ID rooms *)
+                     let log2 := if pseudo then log1 else log1 ++ [entry [bs "V"; to_verify]] in
+                     match sj_verify i with
+                     | VErr => efail OInternal log2
+                     | VBad => efail OForbidden log2
+                     | VGood =>
+                         let log3 := log2 ++ [entry [bs "M"; sj_req_room i; ef_sender f]] in
+                         match sj_membership i with
+                         | None => efail OInternal log3
+                         | Some cur =>
+                             if bytes_eqb cur s_ban then efail OForbidden log3
+                             else if negb (ef_content_ok f) then efail OBadJson log3
+                             else
+                               let via_ok :=
+                                 match ef_authorised_via f with
+                                 | [] => true
+                                 | _ => match sj_authvia_domain i with
+                                        | None => false
+                                        | Some d => bytes_eqb d (sj_local_name i)
+                                        end
+                                 end in
+                               if negb via_ok then efail OBadJson log3
+                               else {| er_out := OOk; er_log := log3;
+                                       er_already_joined := bytes_eqb cur s_join;
+                                       er_event := Some (sign (sj_local_name i) (sj_key_id i) (sj_event i)) |}
+                         end
+                     end
+               end
+    end.
+
   Definition send_join (i : sj_input) : event_result :=
     let f := sj_fields i in
     let pseudo := bytes_eqb (sj_version i) v_pseudo_ids in
@@ -342,61 +393,13 @@ Section SendJoin.
     else if negb (sj_parse_ok i) then efail OBadJson []
     else if match ef_state_key f with None => true | Some k => bytes_eqb k [] end then efail OBadJson []
     else if negb (state_key_is f (ef_sender f)) then efail OBadJson []
-    else
-      (* validate and store the mxid_mapping (pseudo-ID rooms only) *)
-      let after_mapping (log0 : list bytes) : event_result :=
-        let log1 := log0 ++ [entry [bs "U"; sj_req_room i; ef_sender f]] in
-        match sj_sender i with
-        | SErr => efail OForbidden log1
-        | SNil => efail OForbidden log1
-        | SUser dom =>
-            if negb (bytes_eqb dom (sj_origin i)) then efail OForbidden log1
-            else
-              let to_verify := if pseudo then ef_sender f else dom in
-              if negb (bytes_eqb (ef_room_id f) (sj_req_room i)) then efail OBadJson log1
-              else if negb (bytes_eqb (ef_event_id f) (sj_req_event_id i)) then efail OBadJson log1
-              else if negb (bytes_eqb (ef_type f) m_room_member) then efail OBadJson log1
-              else match ef_membership f with
-                   | None => efail OBadJson log1
-                   | Some m =>
-                       if negb (bytes_eqb m s_join) then efail OBadJson log1
-                       else if negb (sj_redact_ok i) then efail OBadJson log1
-                       else
-                         (* the scripted verifier is not called for pseudo-ID rooms *)
-                         let log2 := if pseudo then log1 else log1 ++ [entry [bs "V"; to_verify]] in
-                         match sj_verify i with
-                         | VErr => efail OInternal log2
-                         | VBad => efail OForbidden log2
-                         | VGood =>
-                             let log3 := log2 ++ [entry [bs "M"; sj_req_room i; ef_sender f]] in
-                             match sj_membership i with
-                             | None => efail OInternal log3
-                             | Some cur =>
-                                 if bytes_eqb cur s_ban then efail OForbidden log3
-                                 else if negb (ef_content_ok f) then efail OBadJson log3
-                                 else
-                                   let via_ok :=
-                                     match ef_authorised_via f with
-                                     | [] => true
-                                     | _ => match sj_authvia_domain i with
-                                            | None => false
-                                            | Some d => bytes_eqb d (sj_local_name i)
-                                            end
-                                     end in
-                                   if negb via_ok then efail OBadJson log3
-                                   else {| er_out := OOk; er_log := log3;
-                                           er_already_joined := bytes_eqb cur s_join;
-                                           er_event := Some (sign (sj_local_name i) (sj_key_id i) (sj_event i)) |}
-                             end
-                         end
-                   end
-        end in
-      if pseudo then
-        if negb (sj_mapping_ok i) then efail OBadJson []
-        else if negb (sj_mapping_sig_ok i) then efail OForbidden []
-        else
-          let log0 := [entry [bs "T"; sj_req_room i]] in
-          if negb (sj_store_ok i) then efail OPassthrough log0
-          else after_mapping log0
-      else after_mapping [].
+    else if pseudo then
+      (* validate and store the mxid_mapping *)
+      if negb (sj_mapping_ok i) then efail OBadJson []
+      else if negb (sj_mapping_sig_ok i) then efail OForbidden []
+      else
+        let log0 := [entry [bs "T"; sj_req_room i]] in
+        if negb (sj_store_ok i) then efail OPassthrough log0
+        else send_join_checks i log0
+    else send_join_checks i [].
 End SendJoin.
